@@ -258,6 +258,8 @@ class Realizer:
                 empty = False
                 L.append(o.post_init)
             for m in o.methods:
+                if m.inherited:
+                    continue
                 empty = False
                 args = []
                 if m.alias:
